@@ -22,9 +22,25 @@ def gen_catalog(rng, loaded=True):
         st = rng.choice(["L", "N", "F"] if loaded else ["N", "F"])
         e = f"{cl},{hx(enc_name(nm))},{st}"
         if st == "L":
-            recs = [f"{hx(enc_name(nm))}/6/3600/{hx(soa_rdata())}"]
+            recs = [f"{hx(enc_name(nm))}/6/{rng.choice([3600, 3])}/{hx(soa_rdata())}"]
             if rng.random() < 0.7:
                 recs.append(f"{hx(enc_name([b'www'] + nm))}/1/60/01020304")
+            if rng.random() < 0.5:
+                # CNAMEs: in-zone target, chain, loop, out-of-zone targets incl. ones with FEWER labels than the apex
+                tgt = rng.choice([[b"www"] + nm, [b"c2"] + nm, [b"c"] + nm, [b"example", b"com"], [b"x"], [], [b"nx"] + nm])
+                recs.append(f"{hx(enc_name([b'c'] + nm))}/5/60/{hx(enc_name(tgt))}")
+                if rng.random() < 0.5:
+                    recs.append(f"{hx(enc_name([b'c2'] + nm))}/5/60/{hx(enc_name(rng.choice([[b'c'] + nm, [b'www'] + nm, []])))}")
+            if rng.random() < 0.4:
+                # a delegation with in-bailiwick glue and an out-of-bailiwick name server
+                recs.append(f"{hx(enc_name([b'sub'] + nm))}/2/60/{hx(enc_name([b'ns', b'sub'] + nm))}")
+                recs.append(f"{hx(enc_name([b'sub'] + nm))}/2/60/{hx(enc_name([b'ns', b'other']))}")
+                recs.append(f"{hx(enc_name([b'ns', b'sub'] + nm))}/1/60/05060708")
+            if rng.random() < 0.3:
+                recs.append(f"{hx(enc_name([b'*'] + nm))}/1/60/090a0b0c")
+            if rng.random() < 0.3:
+                recs.append(f"{hx(enc_name(nm))}/15/60/{hx(u16(10) + enc_name([b'www'] + nm))}")
+                recs.append(f"{hx(enc_name(nm))}/2/60/{hx(enc_name([b'www'] + nm))}")
             e += "," + "+".join(recs)
         entries.append(e)
         names.append((nm, cl))
@@ -86,9 +102,15 @@ def gen_request(rng, zone_names):
     qd = rng.choice([1, 1, 1, 1, 1, 1, 0, 2])
     body = []
     for _ in range(qd):
-        if zone_names and rng.random() < 0.8:
+        if rng.random() < 0.03:
+            # boundary QNAMEs: exactly 255 / 254 octets on the wire, 127 one-octet labels
+            labels = rng.choice([[b"q" * 63, b"r" * 63, b"s" * 63, b"t" * 61], [b"q" * 63, b"r" * 63, b"s" * 63, b"t" * 60],
+                                 [b"z"] * 127, [b"Q" * 63, b"r" * 63, b"s" * 62, b"t" * 61]])
+        elif zone_names and rng.random() < 0.8:
             base, _ = rng.choice(zone_names)
-            extra = [rng.choice([b"www", b"nx", b"WWW", b"a"])] if rng.random() < 0.6 else []
+            extra = [rng.choice([b"www", b"nx", b"WWW", b"a", b"c", b"c2", b"sub", b"C", b"anything"])] if rng.random() < 0.7 else []
+            if extra and rng.random() < 0.15:
+                extra = [rng.choice([b"x", b"ns", b"deep"])] + extra
             labels = extra + [l.swapcase() if rng.random() < 0.2 else l for l in base]
         else:
             labels = dnsgen.rand_labels(rng, 3)
@@ -114,7 +136,14 @@ def gen_request(rng, zone_names):
     else:
         for _ in range(rng.randint(1, 4)):
             ar.append(rng.choice([gen_plain_rr, gen_plain_rr, gen_opt, gen_tsig])(rng))
-    msg = u16(rng.randrange(65536)) + u16(flags) + u16(qd) + u16(len(an)) + u16(len(ns)) + u16(len(ar)) + body
+    counts = [len(an), len(ns), len(ar)]
+    if rng.random() < 0.03:
+        # counts far beyond what the message holds (incl. sums that overflow 16 bits)
+        k = rng.randrange(3)
+        counts[k] = rng.choice([0xFFFF, 0x8000, 0xFFFE, 0x7FFF, 256])
+        if rng.random() < 0.5:
+            counts[(k + 1) % 3] = rng.choice([0xFFFF, 0x8000, 1])
+    msg = u16(rng.randrange(65536)) + u16(flags) + u16(qd) + u16(counts[0]) + u16(counts[1]) + u16(counts[2]) + body
     for x in an + ns + ar:
         msg += x
     return msg
